@@ -34,7 +34,7 @@ TRUSTED = ['model coq/C18/Model.v is hand-written from thermosteam/network.py (S
            'python list/slice index normalisation and object identity (list.index / `in` on objects without __eq__) as transcribed',
            'intermediate states are compared through a 63-bit polynomial checksum (Coq primitive Uint63 under vm_compute, python int '
            'arithmetic mod 2^63); final states are compared in full']
-CASE_TIMEOUT = 120
+CASE_TIMEOUT = 300
 
 _env = {}
 def env():
@@ -715,8 +715,10 @@ def gen_cases(rng, tier):
     if tier == 'quick':
         cases += exhaustive_cases(rng, 1, 12) + exhaustive_cases(rng, 2, 3) + exhaustive_cases(rng, 3, 1, small, empty_prefix=False)
     else:
-        cases += (exhaustive_cases(rng, 1, 60) + exhaustive_cases(rng, 2, 30) + exhaustive_cases(rng, 3, 0)
+        cases += (exhaustive_cases(rng, 1, 60) + exhaustive_cases(rng, 2, 30)
                   + exhaustive_cases(rng, 3, 8, small, empty_prefix=False))
+        # depth 3 over the full alphabet from the initial universe, one case per first operation
+        cases += [{'kind': 'exhaustive-depth3', 'units': EXH_UNITS, 'ns': 5, 'prefix': [a], 'alphabet': A, 'depth': 2} for a in A]
     return cases
 
 def search_cases(rng, tier):
